@@ -39,6 +39,11 @@ theorem gen_structure :
     Gen.Session.deplexPassesWholeRead = true ∧ Gen.Session.recvTombstoneDrops = true ∧
     Gen.Session.addConnStoreBeforePublish = true ∧ Gen.Session.pickMissIsError = true := by decide
 
+/-- the server serves every session it registers: the connection that made the session runs `serveSession` for it even when
+its own handshake reply could not be written (before /repo's fix it returned, and connections that joined the session later
+found it registered, healthy — and never served: `c01creator.go`) -/
+theorem gen_session_served : Gen.Deliver.creatorServesSessionEvenIfReplyFails = true := by decide
+
 /-! ## the sender's chunking loses nothing -/
 
 theorem take_drop_append {α : Type} (l : List α) (n u : Nat) : (l.drop n).take u ++ l.drop (n + u) = l.drop n := by
